@@ -400,3 +400,13 @@ Definition sched_check (x : sched_case * sched_obs) : bool :=
   let '(o, evs, tms) := sched_model (fst x) in
   let '(o', evs', tms') := snd x in
   outcome_eqb o o' && list_eqb ev_eqb evs evs' && list_eqb Z.eqb tms tms'.
+
+(** several listing / linking orders of one composition (C05): every variant must agree with the model *)
+Fixpoint sched_check_all (cs : list sched_case) (os : list sched_obs) : bool :=
+  match cs, os with
+  | [], [] => true
+  | c :: cr, o :: or => sched_check (c, o) && sched_check_all cr or
+  | _, _ => false
+  end.
+Definition c05_check (x : list sched_case * list sched_obs) : bool := sched_check_all (fst x) (snd x).
+Definition c05_model (x : list sched_case) : list sched_obs := map sched_model x.
